@@ -86,6 +86,22 @@ def gen_dispatch(spec, work, work_root):
 def harnesses(tier):
     hs = [dict(name='c02_automaton_total', src='c02/automaton.c', prepare=gen_terminals, unwind=12, timeout=300, mem_gb=4,
                desc='yy_find_shift_action never returns YY_ERROR_ACTION for any state x emitted line kind; goto lookups in range')]
+    LN = 4 if tier == 'quick' else 6
+    # the first-token kind is enumerated by the driver (symbolic, it has no verdict: 11 GB); everything else stays symbolic
+    hdr = open(os.path.join(vrun.SRC, 'libMultiMarkdown.h')).read()
+    m = re.search(r'enum token_types \{(.*?)\};', hdr, re.S)
+    body = re.sub(r'//[^\n]*', '', m.group(1)); body = re.sub(r'/\*.*?\*/', '', body, flags=re.S)
+    kinds = [x.split('=')[0].strip() for x in body.split(',') if x.strip()]
+    kinds = [k for k in kinds if k != 'DOC_START_TOKEN']
+    HEAVY = {'STAR', 'DASH_M', 'DASH_N', 'PLUS', 'TEXT_NUMBER_POSS_LIST', 'UL'}
+    for k in kinds:
+        d = dict(N=LN, T1=k)
+        if k in HEAVY and tier == 'quick':
+            d['ONE_TOKEN'] = 1
+        hs.append(dict(name='c02_linetype_' + k.lower(), src='c02/linetype.c', defs=d, prepare=gen_terminals, pool_off=True,
+                       units=['repo:mmd.c', 'repo:token.c', 'repo:object_pool.c', 'repo:stack.c', 'repo:char.c'],
+                       unwind=LN + 6, unwindset=['main.0:45', 'main.1:45', 'main.2:45'], timeout=600 if tier == 'quick' else 3000, mem_gb=4 if tier == 'quick' else 14, functional=True,
+                       desc='mmd_assign_line_type, first token %s: the line gets a kind from the emitted set for any second token, source bytes, scanner answers, extensions' % k))
     for nm, unit, fn, trees in WRITERS:
         d = dict(EXPORT=fn, TREE1=trees[0], TREE2=trees[1], TREE3=trees[2], DS_CAP=8)
         hs.append(dict(name='c02_dispatch_' + nm, src='c02/dispatch.c', defs=d, prepare=gen_dispatch, pool_off=True,
@@ -99,7 +115,7 @@ def stack_ranking(tier):
     t0 = time.time()
     res = dict(name='c02_stack_ranking', verdict='error', wall=0, rss_kb=0, n_props=0, failed=[], cover_total=0, cover_sat=0, detail='',
                bounds='unbounded in input length; stack budget YYSTACKDEPTH', desc='z3: a ranking strictly increasing along every push edge exists and stays below the parser stack depth')
-    work = os.path.join(HERE, '.work', 'C02_%s' % tier, 'ranking')
+    work = os.path.join(os.environ.get('VERIF_WORK_DIR', os.path.join(HERE, '.work')), 'C02_%s' % tier, 'ranking')
     os.makedirs(work, exist_ok=True)
     inc = vrun.prepare_inc(work)
     pdefs = re.findall(r'^#define\s+(\w+)\s+(\d+)', open(os.path.join(vrun.SRC, 'parser.h')).read(), re.M)
